@@ -124,6 +124,14 @@ TEXT = {
         'note': NOTE_COMMON,
         'technique': 'Lean 4 proof: acceptance/return lemmas (simp through C06/C01), composed round-trip theorems for all states; kernel-evaluated witnesses for the known findings; program x every-injection-point correspondence incl. real-vs-real transparency',
     },
+    'C10': {
+        'text': 'Machine-checked over regenerated structural facts and the regenerated Step: every field of the Go structs CPU, States, GPR, SPR, Register is exported and the model CPU record consists of exactly those fields (C10_public_fields, C10_model_state: adding a hidden field breaks the theorem); '
+                'the package has no variable besides ErrBreakPoint and only Run starts a goroutine or touches sync/atomic (C10_no_globals; the translator refuses any other global); Step is a function of that state, so a run continued from a snapshot taken at ANY boundary equals the original run '
+                '(C10_snapshot: stepN (m+n) = stepN m then stepN n, induction) and ANY interleaving of two CPUs equals the two separate runs (C10_isolation, induction over schedules). '
+                'Supported dynamically: real-vs-real rebuild of the CPU from its public state after every Step on generated programs with injected interrupts, and concurrent CPUs under the race detector.',
+        'note': NOTE_COMMON + ' Data-race freedom of concurrent CPUs is a runtime fact supported by the race detector run, not proved.',
+        'technique': 'Lean 4 proof over regenerated struct/global facts + induction (snapshot composition, schedule interleaving); real-vs-real snapshot-rebuild correspondence and race-detector run as support',
+    },
     'C16': {
         'text': 'Machine-checked symbolic bit-vector theorems over the definitions regenerated from flag.go/z80.go: GetFlag = any-named-bit, '
                 'SetFlag = F|m, ResetFlag = F&~m for all masks and all F, frame (A and all other fields unchanged), constants = Z80 bit positions, '
